@@ -246,7 +246,7 @@ func GenC16Session(seed uint64) *Scenario {
 		return &sc.Steps[len(sc.Steps)-1]
 	}
 	probe := func() {
-		add(int64(rng.Intn(50)), "send", "isready")
+		add(int64(rng.Range(1, 50)), "send", "isready")
 		add(0, "wait_ready", "").MaxMs = 50
 	}
 	// emit sends the line intact or damaged. Returns true if it went out intact.
